@@ -11,6 +11,8 @@ WANTED = {'result-for-unselected-lint', 'no-result-for-selected-lint', 'status-d
 def run(ctx):
     exe = vlib.build(ctx)
     vlib.tlc_mc(ctx, 'MC_Process', 'MC_Process' if ctx.quick else 'MC_Process_big', workers=12)
+    histcommon.plan_multi(ctx)
+    vlib.GOENV['VERIF_MULTI_SKIP'] = 'kueku'          # one lint reads those; C05 and the KeyUsage rule family cover them
     stab = {}
 
     def keyfn(r):
